@@ -523,6 +523,7 @@ class Construct(object):
 
             from construct import *
             from construct.lib import *
+            from construct.core import BytesIOWithOffsets
             from io import BytesIO
             import struct
             import collections
@@ -530,6 +531,8 @@ class Construct(object):
 
             def restream(data, func):
                 return func(BytesIO(data))
+            def restream_region(io, length, func):
+                return func(BytesIOWithOffsets.from_reading(io, length, "(???)"))
             def reuse(obj, func):
                 return func(obj)
 
@@ -4949,7 +4952,7 @@ class Prefixed(Subconstruct):
 
     def _emitparse(self, code):
         sub = self.lengthfield.sizeof() if self.includelength else 0
-        return f"restream(io.read(({self.lengthfield._compileparse(code)})-({sub})), lambda io: ({self.subcon._compileparse(code)}))"
+        return f"restream_region(io, ({self.lengthfield._compileparse(code)})-({sub}), lambda io: ({self.subcon._compileparse(code)}))"
 
     def _emitseq(self, ksy, bitwise):
         size = "lengthfield"
@@ -5074,7 +5077,7 @@ class FixedSized(Subconstruct):
         return length
 
     def _emitparse(self, code):
-        return f"restream(io.read({self.length}), lambda io: ({self.subcon._compileparse(code)}))"
+        return f"restream_region(io, {self.length}, lambda io: ({self.subcon._compileparse(code)}))"
 
     def _emitfulltype(self, ksy, bitwise):
         return dict(size=repr(self.length).replace("this.",""), type=self.subcon._compileprimitivetype(ksy, bitwise))
